@@ -26,6 +26,9 @@ func genC15(p *Plan, r *RNG) {
 			td = Op{Actor: c, Kind: "tcp_close", At: gap(int64(r.Range(1, 2000)) * ms)}
 		case 2:
 			td = Op{Actor: c, Kind: "refresh", At: gap(int64(r.Range(1, 2000)) * ms), A: OpArgs{Lifetime: 0}}
+			if p.Clients[0].Kind == "real" {
+				td = Op{Actor: c, Kind: "close_tcp", At: gap(int64(r.Range(1, 2000)) * ms)} // the application closes the allocation
+			}
 		case 3:
 			p.IOFaults = append(p.IOFaults, IOFault{M: Match{Sock: "relay", Op: "Accept", Nth: r.Range(1, 4)}, Do: "error"})
 			td = Op{Kind: "wait", At: gap(ms)}
